@@ -365,7 +365,7 @@ func rulePairAlive(w *World, r *RuleResult) {
 					if x, ok := selOf(e.LV, c.a.QField); ok && x.Show() == s.war.Show() && e.Val.Op == "call" && strings.Contains(e.Val.S, "newProcessQueue") {
 						fresh = true
 					}
-					if x, ok := selOf(e.LV, c.a.QField); ok && x.Show() == s.war.Show() && e.Val.Op == "call" && resolveQueue(w, c).ctor != nil && e.Val.S == resolveQueue(w, c).ctor.String() {
+					if x, ok := selOf(e.LV, c.a.QField); ok && x.Show() == s.war.Show() && e.Val.Op == "call" && resolveQueue(w, c).ctor != nil && e.Val.S == fnKey(resolveQueue(w, c).ctor) {
 						fresh = true
 					}
 				}
@@ -376,7 +376,7 @@ func rulePairAlive(w *World, r *RuleResult) {
 		case "WarriorDead":
 			// reviewed exception: zombie reap, control dependent on Pop failing
 			zombie := hasCond(s.p, func(a *T, v bool) bool {
-				return a.Op == "eq" && !v && a.A[1].Op == "nil" && a.A[0].Op == "ext" && a.A[0].A[0].Op == "call" && c.a.Pop != nil && a.A[0].A[0].S == c.a.Pop.String()
+				return a.Op == "eq" && !v && a.A[1].Op == "nil" && a.A[0].Op == "ext" && a.A[0].A[0].Op == "call" && c.a.Pop != nil && a.A[0].A[0].S == fnKey(c.a.Pop)
 			})
 			if zombie {
 				d.add(true, key+"/zombie-reap", c.posOf(s.e), "reviewed exception: unreachable reap of an alive warrior with an empty queue (alive => non-empty queue by PAIR.alive + death test after every execution)", "")
@@ -384,7 +384,7 @@ func rulePairAlive(w *World, r *RuleResult) {
 			}
 			d.add(len(deltas) == 1 && deltas[0] == -1, key+"/living--", c.posOf(s.e), "paired with living count - 1", fmt.Sprintf("warrior marked dead but living count changes by %v on this path", deltas))
 			empty := hasCond(s.p, func(a *T, v bool) bool {
-				return a.Op == "eq" && v && a.A[1].IsConstVal(0) && a.A[0].Op == "call" && c.a.QLen != nil && a.A[0].S == c.a.QLen.String()
+				return a.Op == "eq" && v && a.A[1].IsConstVal(0) && a.A[0].Op == "call" && c.a.QLen != nil && a.A[0].S == fnKey(c.a.QLen)
 			})
 			d.add(empty, key+"/queue-empty", c.posOf(s.e), "death exactly when the queue is empty after execution", "warrior marked dead on a path that does not establish an empty process queue")
 		case "WarriorAdded":
@@ -564,7 +564,7 @@ func ruleSchedLoop(w *World, r *RuleResult) {
 			pcOK, warOK := false, false
 			if good {
 				pc := stripConv(execEv.Args[1])
-				pcOK = pc.Op == "ext" && pc.C == 1 && pc.A[0].Op == "call" && pc.A[0].S == c.a.Pop.String()
+				pcOK = pc.Op == "ext" && pc.C == 1 && pc.A[0].Op == "call" && pc.A[0].S == fnKey(c.a.Pop)
 				// same warrior: queue popped belongs to warriors[i], exec gets warriors[i]
 				qx, ok := selOf(popEv.Args[0], c.a.QField)
 				wr := stripEpoch(execEv.Args[2])
@@ -712,7 +712,7 @@ func ruleRunProgress(w *World, r *RuleResult) {
 	}
 	// evaluate a Run condition under abstract (rc value, n class)
 	eval := func(a *T, rc int64, rcKnown bool, nOne bool) tri {
-		isRC := func(t *T) bool { t = stripConv(t); return t.Op == "call" && t.S == c.a.RunCycle.String() }
+		isRC := func(t *T) bool { t = stripConv(t); return t.Op == "call" && t.S == fnKey(c.a.RunCycle) }
 		isN := func(t *T) bool {
 			t = stripConv(t)
 			return (t.Op == "len" && c.isRecvField(t.A[0], c.a.WarriorsField)) || c.isRecvField(t, c.a.CountField)
@@ -1265,7 +1265,7 @@ func ruleModCfgReal(w *World, r *RuleResult) {
 			for _, e := range p.Events {
 				if e.Kind == "store" {
 					e.Val.walk(func(x *T) bool {
-						if x.Op == "call" && x.S == validate.String() {
+						if x.Op == "call" && x.S == fnKey(validate) {
 							return false
 						}
 						if x.Op == "p" && typeName(x.Ty) == "SimulatorConfig" {
@@ -1279,7 +1279,7 @@ func ruleModCfgReal(w *World, r *RuleResult) {
 				continue
 			}
 			if !hasCond(p, func(a *T, v bool) bool {
-				return a.Op == "eq" && v && a.A[1].Op == "nil" && a.A[0].Op == "call" && a.A[0].S == validate.String()
+				return a.Op == "eq" && v && a.A[1].Op == "nil" && a.A[0].Op == "call" && a.A[0].S == fnKey(validate)
 			}) {
 				good = false
 			}
